@@ -47,9 +47,21 @@ CHECKS["C17"] = dict(engine="bvh-faults", design_ref="DESIGN.md §6 C17", techni
                "all worlds are dropped. Violations are keyed by (operation, callback kind); the six (operation, callback) pairs with a recorded known finding print KNOWN-FINDING, anything else fails.",
     level_note="Trusted: fuses in the payload callbacks fire exactly once; ledger/poison/allocator audit observe double drops and use of dropped values; small worlds (<=9 entities, multi-column archetypes). A crash is attributed by the last flushed CASE line.")
 
+SCHED_NOTE = ("Trusted: the join shim in brood (cfg brood_verif) forwards both closures unchanged; bvh/src/sched.rs computes logical parallelism from strand paths; generated systems log every access they are handed. "
+              "Program family: 12 committed programs (quick) + 24 regenerated per VERIF_SEED (thorough), 2-6 tasks each, bounded by compile cost.")
+CHECKS["C07"] = dict(engine="bvh-sched", design_ref="DESIGN.md §6 C07", technique="differential run of generated schedules (hooked join orders + real pools) against sequential execution on a clone",
+    level_text="Exploration: each generated schedule program runs on seeded worlds (empty, one shared archetype, disjoint archetypes, random mix, many small archetypes) under 6 hooked join orders and several real pool sizes; "
+               "final world, resources, per-system state and per-task run counters must equal the sequential reference.", level_note=SCHED_NOTE)
+CHECKS["C08"] = dict(engine="bvh-sched", design_ref="DESIGN.md §6 C08", technique="fork/join DAG race check: strand paths from the join hook + per-task reach sets (all interleavings of an observed DAG at once)",
+    level_text="Exploration with a logical-parallelism oracle: for every observed run the tasks' strand paths give the fork/join DAG; any logically parallel pair whose recorded reach sets (iterator items, resource views, entry-view reach over all entities) "
+               "share an address with one side mutable is a violation, independent of timing.", level_note=SCHED_NOTE)
+CHECKS["C12"] = dict(engine="bvh-sched", design_ref="DESIGN.md §6 C12", technique="fork/join DAG of empty-world runs vs reference greedy grouping; bounded-progress probes on 1/2/16-thread pools",
+    level_text="Exploration: on empty worlds the observed fork/join relation must make every same-group pair of the 20-line reference grouping logically parallel; termination is checked as bounded progress under a 120 s watchdog (reproduced twice).", level_note=SCHED_NOTE)
+
 NOT_APPLICABLE = {}
 
 ENGINES = [
+    dict(name="bvh-sched", path="/verif/bvh/src/sched.rs", serves_properties=["C07", "C08", "C12"], kind_free_text="schedule monitor: generated schedule programs, join-hook strand paths, reach-set race check, sequential differential, termination probes"),
     dict(name="bvh-faults", path="/verif/bvh/src/faults.rs", serves_properties=["C17"], kind_free_text="panic-injection monitor: fuse at the k-th user callback, then ledger / allocator / payload oracles over the aftermath"),
     dict(name="bvh-deser", path="/verif/bvh/src/deser.rs", serves_properties=["C11", "C04"], kind_free_text="hostile-input monitor: mutated serializations -> Deserialize under panic/ledger/allocator/audit/model oracles"),
     dict(name="bvh-ctor", path="/verif/ctor/src/main.rs", serves_properties=["C18"], kind_free_text="exhaustive constructor / batch precondition enumeration under catch_unwind"),
